@@ -393,6 +393,36 @@ fn case(ctx: &Ctx, tape: &[u8], rec: &Rec, with_binary: bool) -> Verdict {
     if !res.shadowings.is_empty() {
         rec.class("def_with_shadowing");
     }
+    {
+        let mut nested_sig = false;
+        let mut depth0 = true;
+        fn scan(s: &crate::gen::ast::Stmt, top: bool, found: &mut bool) {
+            use crate::gen::ast::{DeclKind, Stmt};
+            match s {
+                Stmt::Decl { kind: DeclKind::Signal(..), .. } if !top => *found = true,
+                Stmt::Block { stmts, .. } => stmts.iter().for_each(|x| scan(x, false, found)),
+                Stmt::If { then, els, .. } => {
+                    scan(then, false, found);
+                    if let Some(e) = els {
+                        scan(e, false, found);
+                    }
+                }
+                Stmt::While { body, .. } => scan(body, false, found),
+                Stmt::For { body, .. } => scan(body, false, found),
+                _ => {}
+            }
+        }
+        if let crate::gen::ast::Stmt::Block { stmts, .. } = &c.def.body {
+            for st in stmts {
+                scan(st, depth0, &mut nested_sig);
+            }
+        }
+        depth0 = false;
+        let _ = depth0;
+        if nested_sig {
+            rec.class("def_with_signal_declared_in_nested_scope");
+        }
+    }
     let collide = c.r.src.contains("x_0") && res.decl_count.get("x").copied().unwrap_or(0) >= 2;
     if collide {
         rec.class("def_with_x_shadowed_next_to_x_0");
